@@ -82,6 +82,17 @@ NormInts(v) == CASE v.t = "num" -> VNum(NormInt(v.num))
                  [] v.t = "arr" -> VArr([i \in 1..Len(v.items) |-> NormInts(v.items[i])])
                  [] v.t = "obj" -> VObj([i \in 1..Len(v.entries) |-> Entry(v.entries[i].k, NormInts(v.entries[i].v))])
                  [] OTHER -> v
+\* "except that negative zero may lose its sign": a number denoting zero may come back without its minus sign
+DropSign(sp) == IF sp # <<>> /\ sp[1] = 45 THEN Tail(sp) ELSE sp
+SerNumOK(a, b) == b = NormInt(a) \/ (ParseDec(a).digits = <<>> /\ b = DropSign(NormInt(a)))
+RECURSIVE SerKeeps(_, _)
+SerKeeps(a, b) ==
+  IF a.t # b.t THEN FALSE
+  ELSE CASE a.t = "num" -> SerNumOK(a.num, b.num)
+         [] a.t = "arr" -> Len(a.items) = Len(b.items) /\ \A i \in 1..Len(a.items) : SerKeeps(a.items[i], b.items[i])
+         [] a.t = "obj" -> Len(a.entries) = Len(b.entries) /\
+                           \A i \in 1..Len(a.entries) : a.entries[i].k = b.entries[i].k /\ SerKeeps(a.entries[i].v, b.entries[i].v)
+         [] OTHER -> a = b
 \* an object whose first key is the private number token cannot travel through serde (known finding K4)
 RECURSIVE HasTokenKey(_)
 HasTokenKey(v) == CASE v.t = "arr" -> \E i \in 1..Len(v.items) : HasTokenKey(v.items[i])
@@ -90,7 +101,7 @@ HasTokenKey(v) == CASE v.t = "arr" -> \E i \in 1..Len(v.items) : HasTokenKey(v.i
 
 ValueSerWhy(e) ==
   IF "ok" \notin DOMAIN e.out THEN "panic"
-  ELSE IF e.out.ok /\ e.out.v = NormInts(SerValue(e.v)) THEN ""
+  ELSE IF e.out.ok /\ SerKeeps(SerValue(e.v), e.out.v) THEN ""
   ELSE IF (\E sp \in NumbersOf(e.v) : K1Class(sp)) THEN "k1"
   ELSE IF HasTokenKey(e.v) THEN "k4"
   ELSE "value_ser"
